@@ -45,12 +45,12 @@ def gen_function(i, rng):
         if r < 0.35:
             return []
         return sorted(rng.sample(ALPHA, rng.choice([1, 1, 2, 3])))
-    cfg = {"p": pick(), "q": pick(), "a": pick(), "c": pick(), "ret": pick(), "b2": pick() or [ALPHA[0]], "c2": pick() or [ALPHA[1]], "p2": pick() or [ALPHA[2]]}
+    cfg = {"p": pick(), "q": pick(), "rest": pick(), "kw": pick(), "a": pick(), "c": pick(), "ret": pick(), "b2": pick() or [ALPHA[0]], "c2": pick() or [ALPHA[1]], "p2": pick() or [ALPHA[2]]}
 
     def must(tags):
         s = ann_forms(tags, rng)
         return s if s.strip(": ") not in ("", "int") else ': "@' + tags[0] + '"'
-    src = (f"def t{i}(p{ann_forms(cfg['p'], rng)}, q{ann_forms(cfg['q'], rng)}){ret_form(cfg['ret'], rng)}:\n"
+    src = (f"def t{i}(p{ann_forms(cfg['p'], rng)}, q{ann_forms(cfg['q'], rng)}, *rest{ann_forms(cfg['rest'], rng)}, **kw{ann_forms(cfg['kw'], rng)}){ret_form(cfg['ret'], rng)}:\n"
            f"    a{ann_forms(cfg['a'], rng)} = p + 1\n    b = q + 2\n    a = a + b\n    c{ann_forms(cfg['c'], rng)} = a * 2\n"
            f"    b{must(cfg['b2'])} = b + 1\n    c{must(cfg['c2'])} = c + 1\n    p{must(cfg['p2'])} = p + 1\n    return c\n")
     return cfg, src
@@ -91,12 +91,12 @@ def main():
                 getattr(mod2, f"t{i}")(P0, Q0)
                 fired.append(len(got) - n0)
         cases.append({"id": len(cases), "kind": "fnpos", "T": T, "var": "", "text": f"$f:@{T} > c", "rets": [c["ret"] for c in cfgs],
-                      "fired": fired, "outcome": "ok", "stream": [], "interacted": [], "cfg": {"p": [], "q": [], "a": [], "c": [], "ret": [], "b2": [], "c2": [], "p2": []}})
+                      "fired": fired, "outcome": "ok", "stream": [], "interacted": [], "cfg": {"p": [], "q": [], "rest": [], "kw": [], "a": [], "c": [], "ret": [], "b2": [], "c2": [], "p2": []}})
     # tag algebra with object identity (TagHeap.tla): random expression histories over a heap of real tag objects;
     # after every operation the denotation of EVERY object so far is read back through match_tag
     from ptera.tags import match_tag
     ALPHA4 = ALPHA + ["D"]
-    EMPTY = {"p": [], "q": [], "a": [], "c": [], "ret": [], "b2": [], "c2": [], "p2": []}
+    EMPTY = {"p": [], "q": [], "rest": [], "kw": [], "a": [], "c": [], "ret": [], "b2": [], "c2": [], "p2": []}
     for _ in range(150 if tier == "quick" else 3000):
         objs, ops, snaps = [], [], []
         for _step in range(rng.randint(3, 9)):
@@ -155,7 +155,7 @@ def main():
         fn = getattr(mod, f"t{i}")
         env = {f"t{i}": fn, "tag": TAG}
         sels = [("generic", T, "", f"t{i} > $x:@{T}") for T in ALPHA] + [("star", T, "", f"t{i} > *:@{T}") for T in ALPHA[:2]] \
-            + [("named", T, v, f"t{i} > {v}:@{T}") for T in ALPHA[:2] for v in ("p", "a", "c", "b")] \
+            + [("named", T, v, f"t{i} > {v}:@{T}") for T in ALPHA[:2] for v in ("p", "a", "c", "b", "rest", "kw")] \
             + [("all", "", "", f"t{i} > $x")] + [("ctx", T, "", f"t{i}($x:@{T}) > c") for T in ALPHA[:1]]
         if tier == "quick":
             sels = rng.sample(sels, 8)
